@@ -151,7 +151,7 @@ def run_oracles(prop, tier, report):
             hintmax = max(hintmax, getattr(h, "hintmax", -1))
             for s in h.steps:
                 ns += 1
-                toks = s.op.lstrip("!0123456789 ").split(" ")
+                toks = s.op.lstrip("!0123456789+ ").split(" ")
                 opk[toks[0]] += 1
                 if not s.res.startswith("skip"):
                     a = int(toks[1]) if len(toks) > 1 and toks[1].isdigit() and int(toks[1]) < 3 else 0
@@ -170,7 +170,7 @@ def run_oracles(prop, tier, report):
                 report.known_finding("%s: %s" % (k["site"], k["failure"]))
                 continue
             nviol += 1
-            key = (op_line.lstrip("!0123456789 ").split(" ")[0], re.sub(r"[0-9,\[\]-]+", "#", msg)[:60])
+            key = (op_line.lstrip("!0123456789+ ").split(" ")[0], re.sub(r"[0-9,\[\]-]+", "#", msg)[:60])
             if key in seen or len(seen) >= 8:
                 continue
             seen.add(key)
